@@ -43,3 +43,39 @@ for variant, pat in (('esc', P + 'RE_CSS_ESC'), ('stresc', P + 'RE_CSS_STR_ESC')
              properties=['C06', 'C09', 'C10'])
 contract(P + 'css_unescape', params=dict(content=STR, string=BOOL), returns=STR,
          ensures=['result == unesc(content, string)'], properties=['C06', 'C09', 'C10', 'C19'])
+
+
+# ---- the small parse_* methods: exception freedom, exact effect on the working compound, nothing else touched (C06, C13, C19.O6)
+from pyvc.tree import PSEL, CSSPARSER, SELLANG, SELCONTAINS   # noqa: E402
+CP = P + 'CSSParser.'
+PATS = 'contracts.patterns.'
+_PP = dict(self=CSSPARSER, sel=PSEL, m=MATCH, has_selector=BOOL)
+
+
+def _appended(field):
+    n = f'len(old(sel.{field}))'
+    return [f'len(sel.{field}) == {n} + 1', f'sel.{field} == old(sel.{field}) + [sel.{field}[{n}]]']
+
+
+for variant, pat in (('id', PATS + 'PAT_ID'), ('class', PATS + 'PAT_CLASS')):
+    contract(CP + 'parse_class_id@' + variant, params=_PP, match_params={'m': pat}, returns=BOOL, modifies=['sel.ids', 'sel.classes'],
+             ensures=['result',
+                      "implies(m.group(0)[0:1] == '.', sel.classes == old(sel.classes) + [unesc(m.group(0)[1:], False)] and sel.ids == old(sel.ids))",
+                      "implies(m.group(0)[0:1] != '.', sel.ids == old(sel.ids) + [unesc(m.group(0)[1:], False)] and sel.classes == old(sel.classes))"],
+             properties=['C06', 'C01'])
+contract(CP + 'parse_pseudo_dir', params=_PP, match_params={'m': PATS + 'PAT_PSEUDO_DIR'}, returns=BOOL, modifies=['sel.selectors'],
+         ensures=['result'] + _appended('selectors') +
+                 ["implies(ascii_lower(m.group('dir')) == 'ltr', sel.selectors[len(old(sel.selectors))] == CSS_DIR_LTR)",
+                  "implies(ascii_lower(m.group('dir')) != 'ltr', sel.selectors[len(old(sel.selectors))] == CSS_DIR_RTL)"],
+         properties=['C06', 'C17'])
+_VL = dict(var='token', invariant=['_seq1 == rv_starts(values)', 'patterns + vals_from(values, _i1) == vals_from(values, 0)'])
+contract(CP + 'parse_pseudo_lang', params=_PP, match_params={'m': PATS + 'PAT_PSEUDO_LANG'}, returns=BOOL, modifies=['sel.lang'],
+         locals=dict(patterns=TSeq(STR), value=TOpt(STR)), loops={1: _VL},
+         ensures=['result'] + _appended('lang') + ["sel.lang[len(old(sel.lang))].languages == vals_from(m.group('values'), 0)"],
+         properties=['C06', 'C13'])
+contract(CP + 'parse_pseudo_contains', params=_PP, match_params={'m': PATS + 'PAT_PSEUDO_CONTAINS'}, returns=BOOL, modifies=['sel.contains'],
+         locals=dict(patterns=TSeq(STR), value=TOpt(STR)), loops={1: _VL},
+         ensures=['result'] + _appended('contains') +
+                 ["sel.contains[len(old(sel.contains))].text == vals_from(m.group('values'), 0)",
+                  "sel.contains[len(old(sel.contains))].own == (ascii_lower(unesc(m.group('name'), False)) == ':-soup-contains-own')"],
+         properties=['C06', 'C19'])
